@@ -83,7 +83,7 @@ func decodeBody(r *HTTPReq) (map[SeriesKey]*Obs, int) {
 
 func (c15) Run(e *Env) {
 	e.ProbeDecl("dispatcher-parked-across-flush-begin", "retry-after-5xx", "retry-after-conn-error", "retry-after-lost-response", "abandoned-after-window", "abandoned-retries-off",
-		"slow-response-client-timeout", "several-bodies-per-flush", "max-requests-saturated", "manual-flush", "ticker-flush", "flush-parked-after-drain", "4xx", "non-utf8-string", "header-tag-repeated", "pipelined-manual-flush")
+		"slow-response-client-timeout", "several-bodies-per-flush", "max-requests-saturated", "manual-flush", "ticker-flush", "flush-parked-after-drain", "4xx", "non-utf8-string", "header-tag-repeated", "pipelined-manual-flush", "shutdown-with-data-pending")
 	slots := e.Range(1, 4)
 	maxReq := e.Range(1, 4)
 	concMerge := e.Range(1, 3)
@@ -151,7 +151,8 @@ func (c15) Run(e *Env) {
 	ctx, cancel := context.WithCancel(stats.NewContext(context.Background(), st))
 	var wg sync.WaitGroup
 	wg.Add(2)
-	go func() { defer wg.Done(); hfh.Run(ctx) }()
+	var runReturned atomic.Bool
+	go func() { defer wg.Done(); hfh.Run(ctx); runReturned.Store(true) }()
 	go func() { defer wg.Done(); hfh.RunMetricsContext(ctx) }()
 	nDisp := e.Range(1, 4)
 	work := make([]chan func(), nDisp)
@@ -822,6 +823,52 @@ func (c15) Run(e *Env) {
 		}
 		fc.NotifyFlush() // release the probe
 		e.Settle()
+	}
+	if !manual {
+		// shutdown: the consolidator flushes once more when the server's context ends; what was
+		// dispatched before that must still leave (the posts do not use the server's context)
+		nextID++
+		it := &c15Item{id: nextID, kind: "set", dispatchN: -2, member: fmt.Sprintf("bye%d", nextID)}
+		it.key = KeyOf("set", "f.bye", nil, "")
+		bitOwner[string(it.key)+"|m"+it.member] = it
+		mm := gostatsd.NewMetricMap(false)
+		mm.Receive(&gostatsd.Metric{Name: "f.bye", Type: gostatsd.SET, StringValue: it.member, Rate: 1, Timestamp: 1})
+		items = append(items, it)
+		it.invoked = e.NextSeq()
+		hfh.DispatchMetricMap(ctx, mm)
+		it.returned = e.NextSeq()
+		e.Settle()
+		e.Probe("shutdown-with-data-pending")
+		e.Event("shutdown")
+		flushBegins = append(flushBegins, e.NextSeq())
+		cancel()
+		for i := 0; ; i++ {
+			e.Settle()
+			absorbReqs()
+			e.Check()
+			progressed := false
+			for _, p := range fab.Gate.Parked() {
+				r := p.Arg.(*HTTPReq)
+				bodies[r.Path+r.BodyHash].success = true
+				fab.Gate.Release(p, HTTPOutcome{Kind: "serve"})
+				progressed = true
+				e.Settle()
+			}
+			if progressed {
+				continue
+			}
+			if runReturned.Load() {
+				break
+			}
+			if i > 50 {
+				e.Failf("C15/shutdown-wedged", "the forwarder has not stopped %d steps after its context ended although every request is answered at once", i)
+			}
+			time.Sleep(200 * time.Millisecond)
+		}
+		absorbReqs()
+		if it.body == "" {
+			e.Failf("C15/lost-at-shutdown", "datapoint %s was dispatched before the server stopped; the forwarder has shut down (its final flush ran) and no request carried it", it.key)
+		}
 	}
 	e.Note["bodies"] = len(bodyOrder)
 	e.Note["datapoints"] = len(items)
